@@ -147,7 +147,13 @@ func runCollectAll(p *Prog, r *Report) {
 			}
 			rs, ok := m.(*ast.RangeStmt)
 			if !ok {
-				return true
+				fs, isFor := m.(*ast.ForStmt)
+				if !isFor {
+					return true
+				}
+				if rs = countingAsRange(fs); rs == nil {
+					return true
+				}
 			}
 			// does the loop collect into an outer slice?
 			collects := ""
@@ -230,6 +236,32 @@ func runCollectAll(p *Prog, r *Report) {
 							construct = fmt.Sprintf("%s in range %s", exitKind, cmpText(rs.X))
 						}
 						if ifs == nil {
+							// an exit at the end of the body, reached when the guard clauses above it did not
+							// `continue`: judged by the guards on the way to it
+							missG := ""
+							var at *Formula
+							if bs, isBranch := s.(*ast.BranchStmt); isBranch {
+								at = guardsAtBranch(p, fn, bs)
+							} else {
+								at = fn.GuardsAt(s)
+							}
+							for _, a := range at.AllAtoms() {
+								if a == nil || a.E == nil || a.Pol {
+									continue
+								}
+								if a.E.Pos().IsValid() && (a.E.Pos() < rs.Body.Pos() || a.E.Pos() >= rs.Body.End()) {
+									continue
+								}
+								if id, ok := ast.Unparen(a.E).(*ast.Ident); ok {
+									if o := info.ObjectOf(id); o != nil && len(inLoop[o]) > 0 && perElementResult(info, inLoop[o]) && dependsOnElement(fn, rs, inLoop[o]) {
+										missG = "!" + id.Name
+									}
+								}
+							}
+							if missG != "" {
+								r.Add("E15.collect-all", fn.Name, construct, p.Pos(s), Violated,
+									"the loop collects "+collects+" from every element but stops at the first element for which "+missG+": everything after it is dropped", true)
+							}
 							return true
 						}
 						miss := ""
@@ -320,7 +352,29 @@ func dependsOnElement(fn *Func, rs *ast.RangeStmt, as []ast.Node) bool {
 	info := fn.Info()
 	vid, ok := rs.Value.(*ast.Ident)
 	if !ok || vid.Name == "_" {
-		return false
+		// no value variable (for i := range xs / a counting loop): the element is xs[i]
+		kid, isKey := rs.Key.(*ast.Ident)
+		if !isKey || kid.Name == "_" {
+			return false
+		}
+		ko := info.ObjectOf(kid)
+		coll := exprStr(rs.X)
+		found := false
+		for _, a := range as {
+			if s, ok := a.(*ast.AssignStmt); ok {
+				for _, rhs := range s.Rhs {
+					ast.Inspect(rhs, func(z ast.Node) bool {
+						if ix, ok := z.(*ast.IndexExpr); ok && exprStr(ix.X) == coll {
+							if iid, ok := ast.Unparen(ix.Index).(*ast.Ident); ok && info.ObjectOf(iid) == ko {
+								found = true
+							}
+						}
+						return !found
+					})
+				}
+			}
+		}
+		return found
 	}
 	vo := info.ObjectOf(vid)
 	for _, a := range as {
@@ -437,7 +491,15 @@ func runStaleElementState(p *Prog, r *Report) {
 			}
 			rs, ok := m.(*ast.RangeStmt)
 			if !ok {
-				return true
+				// `for i := 0; i < len(xs); i++` read as `for i := range xs`
+				fs, isFor := m.(*ast.ForStmt)
+				if !isFor {
+					return true
+				}
+				rs = countingAsRange(fs)
+				if rs == nil {
+					return true
+				}
 			}
 			lv := rangeVars(info, []*ast.RangeStmt{rs})
 			if len(lv) == 0 {
@@ -714,11 +776,21 @@ func runSiblingChildCons(p *Prog, r *Report) {
 			if !ok {
 				return true
 			}
+			var ex, co ast.Expr
 			f := calleeOf(info, call)
-			if f == nil || fname(f) != "newExpression" || len(call.Args) < 2 {
+			if f != nil && fname(f) == "newExpression" && len(call.Args) >= 2 {
+				ex, co = call.Args[len(call.Args)-2], call.Args[len(call.Args)-1]
+				// inside a wrapper (closure) whose parameters are handed on: judged at its call sites
+				if id, ok := ast.Unparen(ex).(*ast.Ident); ok {
+					if lit := enclosingFuncLit(p, call); lit != nil && isParamOfLit(info, lit, id) {
+						return true
+					}
+				}
+			} else if wex, wco := wrappedNewExpression(fn, call); wex != nil {
+				ex, co = wex, wco
+			} else {
 				return true
 			}
-			ex, co := call.Args[len(call.Args)-2], call.Args[len(call.Args)-1]
 			// child: <typeswitch var>.<Field>[…]
 			base := ast.Unparen(ex)
 			if ix, ok := base.(*ast.IndexExpr); ok {
@@ -1395,4 +1467,83 @@ func positionExclusiveSites(fn *Func, a, b ast.Node) bool {
 	}
 	la, lb := loopOf(a), loopOf(b)
 	return la != nil && lb != nil && la != lb && !nodeContains(la.Body, lb) && !nodeContains(lb.Body, la)
+}
+
+func enclosingFuncLit(p *Prog, n ast.Node) *ast.FuncLit {
+	for q := p.Parent(n); q != nil; q = p.Parent(q) {
+		if lit, ok := q.(*ast.FuncLit); ok {
+			return lit
+		}
+	}
+	return nil
+}
+
+func isParamOfLit(info *types.Info, lit *ast.FuncLit, id *ast.Ident) bool {
+	o := info.ObjectOf(id)
+	for _, f := range lit.Type.Params.List {
+		for _, n := range f.Names {
+			if info.ObjectOf(n) == o {
+				return true
+			}
+		}
+	}
+	return false
+}
+
+// wrappedNewExpression: call is `w(a, b)` where w is a local closure (single definition) whose
+// body calls newExpression(…, <param i>, <param j>): the expression and constraint arguments
+// the wrapper is given.
+func wrappedNewExpression(fn *Func, call *ast.CallExpr) (ast.Expr, ast.Expr) {
+	info := fn.Info()
+	id, ok := ast.Unparen(call.Fun).(*ast.Ident)
+	if !ok {
+		return nil, nil
+	}
+	o := info.ObjectOf(id)
+	if o == nil {
+		return nil, nil
+	}
+	var def ast.Expr
+	for f := fn; f != nil && def == nil; f = f.Parent {
+		def = f.SingleDef(o)
+	}
+	lit, ok := ast.Unparen(def).(*ast.FuncLit)
+	if !ok || def == nil {
+		return nil, nil
+	}
+	var params []types.Object
+	for _, f := range lit.Type.Params.List {
+		for _, n := range f.Names {
+			params = append(params, info.ObjectOf(n))
+		}
+	}
+	if len(params) != len(call.Args) {
+		return nil, nil
+	}
+	idx := func(e ast.Expr) int {
+		if pid, ok := ast.Unparen(e).(*ast.Ident); ok {
+			for i, po := range params {
+				if info.ObjectOf(pid) == po {
+					return i
+				}
+			}
+		}
+		return -1
+	}
+	var ex, co ast.Expr
+	ast.Inspect(lit.Body, func(z ast.Node) bool {
+		c, ok := z.(*ast.CallExpr)
+		if !ok || len(c.Args) < 2 {
+			return true
+		}
+		if f := calleeOf(info, c); f == nil || fname(f) != "newExpression" {
+			return true
+		}
+		i, j := idx(c.Args[len(c.Args)-2]), idx(c.Args[len(c.Args)-1])
+		if i >= 0 && j >= 0 {
+			ex, co = call.Args[i], call.Args[j]
+		}
+		return true
+	})
+	return ex, co
 }
